@@ -77,12 +77,7 @@ def run(tier):
             scripts.append({"id": "drain-%d-%d" % (i, j), "cf": ini["cf"], "steps": steps})
             nprobe += 1
     chk.cov["reachable_states_drained"] = nprobe
-    sp = os.path.join(sd, "s.ndjson")
-    tp = os.path.join(sd, "t.ndjson")
-    vlib.write_ndjson(sp, scripts)
-    vlib.run([binp, sp, tp], timeout=900)
-    if not os.path.exists(tp + ".ok"):
-        raise vlib.FrameworkError("limsim did not finish")
+    tp = vlib.run_chunked(binp, scripts, sd, "lim", chunk=300)
     chk.cov["traces_validated_against_impl"] += len(scripts)
     chk.cov["replayed_model_transitions"] = stats["transitions"]
     viols, pr = vlib.observe("ObsLimiterTrace", "ObsLimiterTrace.cfg", tp)
